@@ -15,18 +15,10 @@ def Root.WF : Root → Prop
   | .front base => Sorted base
   | .hist rb base => Sorted rb ∧ Sorted base
 
-/-- which raw values the root's iterator lets through (`skipDeletedIterator` sits only in historical roots) -/
-def Root.keeps : Root → Bytes → Prop
-  | .hist _ _, raw => raw.length > 1
-  | _, _ => True
-
-def Root.isHist : Root → Bool
-  | .hist _ _ => true
-  | _ => false
-
-/-- raw scan of a root = key-ordered enumeration of its raw lookup under the prefix, minus what the iterator skips -/
+/-- raw scan of a root = key-ordered enumeration of its raw lookup under the prefix (tombstones included: they are
+    what hides the lower layers; the delete-enabled iterator on top drops them) -/
 theorem Root.rawScan_entries {root : Root} (hw : root.WF) (p : Bytes) :
-    OrderedEntries (root.rawScan p) (fun k raw => isPrefix p k = true ∧ root.rawGet k = some raw ∧ root.keeps raw) := by
+    OrderedEntries (root.rawScan p) (fun k raw => isPrefix p k = true ∧ root.rawGet k = some raw) := by
   cases root with
   | mem =>
     refine ⟨Sorted.nil, ?_⟩
@@ -35,16 +27,12 @@ theorem Root.rawScan_entries {root : Root} (hw : root.WF) (p : Bytes) :
   | front base =>
     refine ⟨Sorted.rscan hw p, ?_⟩
     intro k raw
-    simp only [Root.rawScan, Root.rawGet, Root.keeps, and_true]
+    simp only [Root.rawScan, Root.rawGet]
     rw [mem_rscan, mem_iff_rget hw]
     exact And.comm
   | hist rb base =>
     obtain ⟨hrb, hbase⟩ := hw
-    refine ⟨((hrb.rscan p).merge2 (hbase.rscan p)).skipDel, ?_⟩
-    intro k raw
-    simp only [Root.rawScan, Root.rawGet, Root.keeps]
-    rw [mem_skipDel, (merged_scan_entries hrb hbase p).2]
-    exact and_assoc
+    exact merged_scan_entries hrb hbase p
 
 theorem rget_rscan (s : Raw) (p k : Bytes) :
     rget (rscan s p) k = if isPrefix p k = true then rget s k else none := by
@@ -77,19 +65,16 @@ def layerGet (top : Raw) (root : Root) (k : Bytes) : Option Bytes := edDecode (l
 /-- raw scan through a first-level view -/
 def layerRawScan (top : Raw) (root : Root) (p : Bytes) : Raw := merge2 (rscan top p) (root.rawScan p)
 
-/-- ordered scan through a first-level view: the key-ordered list of exactly the entries the view READS under the
-    prefix; over a historical root, keys that the view did not write itself and that hold the empty value are
-    missing (F3b) -/
+/-- ordered scan through a first-level view over ANY root (memdb, frontier snapshot, historical overlay): the
+    key-ordered list of exactly the entries the view READS under the prefix -/
 theorem layer_scan_entries {top : Raw} (hs : Sorted top) {root : Root} (hw : root.WF) (p : Bytes) :
     OrderedEntries (edEntries (layerRawScan top root p))
-      (fun k v => isPrefix p k = true ∧ layerGet top root k = some v ∧
-        ((rget top k).isSome = true ∨ root.isHist = false ∨ v ≠ [])) := by
+      (fun k v => isPrefix p k = true ∧ layerGet top root k = some v) := by
   have hR := Root.rawScan_entries hw p
   have hL : Sorted (layerRawScan top root p) := (hs.rscan p).merge2 hR.1
   refine ⟨hL.edEntries, ?_⟩
   intro k v
-  show _ ↔ isPrefix p k = true ∧ layerGet top root k = some v ∧
-        ((rget top k).isSome = true ∨ root.isHist = false ∨ v ≠ [])
+  show _ ↔ isPrefix p k = true ∧ layerGet top root k = some v
   rw [mem_edEntries]
   simp only [layerRawScan, mem_merge2_iff (hs.rscan p) hR.1, mget2, rget_rscan, layerGet, edDecode_eq_some,
     layerRawGet]
@@ -98,31 +83,11 @@ theorem layer_scan_entries {top : Raw} (hs : Sorted top) {root : Root} (hw : roo
     cases ht : rget top k with
     | some r => simp
     | none =>
-      simp only [Option.isSome_none, Bool.false_eq_true, false_or]
       constructor
       · rintro ⟨c, hc⟩
-        have := (hR.2 k (c :: v)).1 (mem_of_rget hc)
-        refine ⟨⟨c, this.2.1⟩, ?_⟩
-        cases root with
-        | mem => exact Or.inl rfl
-        | front base => exact Or.inl rfl
-        | hist rb base =>
-          refine Or.inr ?_
-          have hk := this.2.2
-          simp only [Root.keeps, List.length_cons] at hk
-          intro hv; subst hv; simp at hk
-      · rintro ⟨⟨c, hc⟩, hor⟩
-        refine ⟨c, (mem_iff_rget hR.1 _ _).1 ((hR.2 k (c :: v)).2 ⟨hp, hc, ?_⟩)⟩
-        cases root with
-        | mem => trivial
-        | front base => trivial
-        | hist rb base =>
-          simp only [Root.keeps, List.length_cons]
-          rcases hor with h | h
-          · simp [Root.isHist] at h
-          · cases v with
-            | nil => exact absurd rfl h
-            | cons x xs => simp
+        exact ⟨c, ((hR.2 k (c :: v)).1 (mem_of_rget hc)).2⟩
+      · rintro ⟨c, hc⟩
+        exact ⟨c, (mem_iff_rget hR.1 _ _).1 ((hR.2 k (c :: v)).2 ⟨hp, hc⟩)⟩
   · simp only [hp]
     have : rget (root.rawScan p) k = none := by
       rw [rget_none_iff]; intro raw hm
